@@ -106,6 +106,15 @@ let res_locs r = match r with Ok x -> "ok " ^ show_locs x | Err _ -> "err"
    OnRegionEpochNotMatch with the returned current regions (if that was the final region error), bumps of store fail-epochs,
    and per entry: a switch of the work peer (switchWorkLeaderToPeer = switch_work, or plain set_work), reload flags,
    an invalidation (invalidate_r with the reason found). Everything else is unexplained = a mismatch. *)
+(* the region states PD and the stores reported in the current sequence (the history of C09_converges_reachable) *)
+let history : desc list ref = ref []
+let hist_seen : (string, unit) Hashtbl.t = Hashtbl.create 256
+let note_desc (d : desc) =
+  let k = show_verid ((d.d_id, d.d_ver), d.d_conf) ^ "," ^ hex_of_bytes d.d_start ^ "," ^ hex_of_bytes d.d_end ^ "," ^ show_peers d.d_peers in
+  if not (Hashtbl.mem hist_seen k) then begin
+    Hashtbl.replace hist_seen k ();
+    history := { d with d_leader = (nn 0, nn 0); d_bk = None } :: !history end
+let note_ans a = (match a with PdOne (Some d) -> note_desc d | PdOne None -> () | PdMany l -> List.iter note_desc l); a
 let sender_prims : (string, int) Hashtbl.t = Hashtbl.create 16
 let rec explain (c : cache) (res : string) (target : cache) : (cache * string list) option =
   (* a send failure on an earlier attempt (store fail-epoch bump) may precede the final epoch-not-match answer: try that order first *)
@@ -123,7 +132,8 @@ and explain1 (c : cache) (res : string) (target : cache) : (cache * string list)
   let c0 = match split_on ' ' res with
     | "ok" :: "regionerr" :: "epochnotmatch" :: ctx :: cur :: _ when ctx <> "-" ->
         (match split_on '@' ctx with
-         | [v; st] -> (match on_epoch_not_match c (parse_verid v) (nn (int_of_string st)) (parse_descs cur) with
+         | [v; st] -> List.iter note_desc (parse_descs cur);
+                      (match on_epoch_not_match c (parse_verid v) (nn (int_of_string st)) (parse_descs cur) with
                        | Ok (_, c') -> note "on_epoch_not_match"; c' | Err _ -> c)
          | _ -> c)
     | _ -> c in
@@ -159,7 +169,8 @@ and explain1 (c : cache) (res : string) (target : cache) : (cache * string list)
 
 let txn_mode = ref false
 let run_op (c : cache) (op : string) (args : string list) (qs : string list array) =
-  let pd = (if !txn_mode then codec_pd (make_pd qs) else make_pd qs) and budget = nat (Array.length qs) and t0 = O in
+  let pd0 = (if !txn_mode then codec_pd (make_pd qs) else make_pd qs) in
+  let pd = fun t q -> note_ans (pd0 t q) and budget = nat (Array.length qs) and t0 = O in
   let a i = List.nth args i in
   let fin ((r, c1), t1) show = (show r, c1, int_of_nat t1) in
   match op with
@@ -230,6 +241,7 @@ let run_op (c : cache) (op : string) (args : string list) (qs : string list arra
       let leader = if a 1 = "none" then None else Some (parse_peer (a 1)) in
       ("ok", update_leader c (parse_verid (a 0)) leader (nat (int_of_string (a 2))), 0)
   | "epoch" ->
+      List.iter note_desc (parse_descs (a 2));
       (match on_epoch_not_match c (parse_verid (a 0)) (nn (int_of_string (a 1))) (parse_descs (a 2)) with
        | Ok (rt, c1) -> ((if rt then "ok retry" else "ok"), c1, 0)
        | Err _ -> ("err", c, 0))
@@ -280,6 +292,7 @@ let () =
       print_endline (String.concat "\t" ([kind; !seqid; idx; op] @ [String.concat " " args] @ extra)) in
   (* the cache invariant of the convergence proof (cinv, executable form cinvb) on the implementation's cache contents *)
   let inv_checked = ref 0 and inv_failed = ref 0 and wf_checked = ref 0 and wf_failed = ref 0 in
+  let hist_checked = ref 0 and hist_failed = ref 0 and hist_states = ref 0 in
   let clause_names = ["sorted"; "hist"; "addr"; "uniq"; "dom_start"; "dom_lat"; "dom_id"; "ok"; "len"; "tomb"] in
   let check_inv () =
     if !truth <> [] && !inv_on then begin
@@ -293,8 +306,8 @@ let () =
     end in
   read_lines (fun line ->
     match split_tab line with
-    | "SEQ" :: cls :: seed :: rest -> txn_mode := (rest = ["txn"]); incr seqs; seqid := cls ^ "\t" ^ seed; seq_bad := false; cache := empty_cache; cur_op := None; last_ctx := None; truth := []; last_op := None; inv_on := (cls <> "unit")
-    | "T" :: ds :: _ -> truth := (try parse_descs ds with _ -> [])
+    | "SEQ" :: cls :: seed :: rest -> txn_mode := (rest = ["txn"]); incr seqs; seqid := cls ^ "\t" ^ seed; seq_bad := false; cache := empty_cache; cur_op := None; last_ctx := None; truth := []; last_op := None; inv_on := (cls <> "unit"); history := []; Hashtbl.reset hist_seen
+    | "T" :: ds :: _ -> truth := (try parse_descs ds with _ -> []); List.iter note_desc !truth
     | "X" :: ev :: _ when String.length ev > 6 && String.sub ev 0 6 = "reply " ->
         (* the store's answer as the model's store_reply (Converge.v) predicts it from the ground truth *)
         (match !last_ctx with
@@ -381,8 +394,19 @@ let () =
     | "X" :: ev :: _ when String.length ev >= 10 && String.sub ev 0 10 = "conv begin" ->
         (* a quiescent point: the ground truth must pass the executable form of truth_wf (hypothesis of C09_converges_checked) *)
         incr wf_checked;
-        if not (truth_wfb !truth) then begin incr wf_failed; report "TRUTH-NOT-WF" "-" "conv begin" [] [] end
+        if not (truth_wfb !truth) then begin incr wf_failed; report "TRUTH-NOT-WF" "-" "conv begin" [] [] end;
+        (* ... and everything PD / the stores reported so far must obey the epoch discipline relative to it (hist_ok) *)
+        if !inv_on then begin
+          incr hist_checked; hist_states := !hist_states + List.length !history;
+          if not (hist_okb !truth !history) then begin
+            incr hist_failed;
+            let names = ["same version as a current region, other range/peers"; "one version, two start keys"; "newer than the current region over its start key";
+                         "newer than the current region of the same id"; "empty range"] in
+            let bad = List.filter_map (fun (n, b) -> if b then None else Some n) (List.combine names (hist_parts !truth !history)) in
+            report "HISTORY" "-" "conv begin" [] ["hist_ok clauses violated: " ^ String.concat "; " bad]
+          end
+        end
     | _ -> ());
-  Printf.printf "STATS\tcases=%d\tmismatches=%d\tseqs=%d\tbadseqs=%d\treplies=%d\tinv_checked=%d\tinv_failed=%d\twf_checked=%d\twf_failed=%d\n" !cases !mism !seqs !badseq !replies !inv_checked !inv_failed !wf_checked !wf_failed;
+  Printf.printf "STATS\tcases=%d\tmismatches=%d\tseqs=%d\tbadseqs=%d\treplies=%d\tinv_checked=%d\tinv_failed=%d\twf_checked=%d\twf_failed=%d\thist_checked=%d\thist_failed=%d\thist_states=%d\n" !cases !mism !seqs !badseq !replies !inv_checked !inv_failed !wf_checked !wf_failed !hist_checked !hist_failed !hist_states;
   Hashtbl.iter (fun k v -> Printf.printf "COUNT\t%s\t%d\n" k v) counts;
   Hashtbl.iter (fun k v -> Printf.printf "SENDERPRIM\t%s\t%d\n" k v) sender_prims
